@@ -502,7 +502,7 @@ class RunLengthEncoding(Encoding):
 
     @caching.cache_decorator
     def sum(self):
-        return (self._data[::2] * self._data[1::2]).sum()
+        return (self._data[::2].astype(np.int64) * self._data[1::2]).sum()
 
     @caching.cache_decorator
     def size(self):
